@@ -54,7 +54,7 @@ class Report:
         self.violations.append({"clause": clause, "what": what, "replay": path})
         return path
 
-    def write(self, level="model_checking"):
+    def write(self, level="model_checking", dry=False):
         os.makedirs(EVID, exist_ok=True)
         cov = {
             "states": int(self.states), "transitions": int(self.transitions),
@@ -68,6 +68,7 @@ class Report:
         doc = {"property_id": self.pid, "tier": self.tier, "seed": int(self.seed), "level": level,
                "coverage": cov, "assumptions": self.assumptions, "wall_s": round(time.time() - self.t0, 2),
                "violations": len(self.violations)}
-        with open(os.path.join(EVID, self.pid + ".json"), "w") as fh:
-            json.dump(doc, fh, indent=1, default=repr)
+        if not dry:   # a --replay run never overwrites the evidence of the last real run
+            with open(os.path.join(EVID, self.pid + ".json"), "w") as fh:
+                json.dump(doc, fh, indent=1, default=repr)
         return doc
